@@ -199,7 +199,7 @@ func instantiateGenericModel(
 		clonedStruct.Name = StandardModelNameTransformer(clonedStruct.Name, rawParamNames)
 	}
 
-	for fieldIdx, field := range rawStruct.Fields {
+	for _, field := range rawStruct.Fields {
 		// Check if this is a generic field. A bit of an ugly heuristic.
 		// Will need to re-work generic parameters later on.
 		if field.Type.Root != nil && field.Type.Root.Kind() == metadata.TypeRefKindParam {
@@ -221,8 +221,14 @@ func instantiateGenericModel(
 				)
 			}
 
-			// Re-write the type
-			clonedStruct.Fields[fieldIdx].Type = rawParamNames[replParamIdx]
+			// Re-write the type. Reduction drops fields that are not part of the model (unexported, `json:"-"`),
+			// so the reduced field is looked up by name rather than by its index in the raw declaration
+			for reducedIdx := range clonedStruct.Fields {
+				if clonedStruct.Fields[reducedIdx].Name == field.Name {
+					clonedStruct.Fields[reducedIdx].Type = rawParamNames[replParamIdx]
+					break
+				}
+			}
 		}
 
 	}
